@@ -202,6 +202,39 @@ def run(ctx):
         all(s.kind == "stmt" and isinstance(s.ast, ast.Break) for s, lab in fb[0].succ if lab == "next")
     ctx.ob("C17.PICK", fc, "before the first onset the FIRST standard component applies: the assignment under `not comp.isdst` is followed directly by break",
            okf, construct="first standard component fallback", detail="" if okf else str([stmt_text(n) for n in fb]), analysis="must-hold branch facts + CFG successor")
+    # whatever _find_comp returns is one of the zone's components: an element of self._comps (the loop variable of a loop
+    # over it, or an item of it) or an entry of the component cache
+    from ..rules_common import value_set
+    comp_loop_vars = set(n.ast.target.id for n in fcfg.live_nodes() if n.kind == "for" and isinstance(n.ast.target, ast.Name) and src(n.ast.iter) == "self._comps")
+    n_ret = 0
+    for n in fcfg.live_nodes():
+        if n.kind == "stmt" and isinstance(n.ast, ast.Return) and n.ast.value is not None:
+            n_ret += 1
+            vs = value_set(ctx, fc, n, n.ast.value)
+            bad = []
+            for t in sorted(vs):
+                try:
+                    e = ast.parse(t, mode="eval").body
+                except SyntaxError:
+                    bad.append(t)
+                    continue
+                okv = (isinstance(e, ast.Name) and e.id in comp_loop_vars) or (isinstance(e, ast.Subscript) and src(e.value) in ("self._comps", "self._cachecomp")) \
+                    or (isinstance(e, ast.Constant) and e.value is None and False)
+                if not okv:
+                    bad.append(t)
+            if "None" in bad and isinstance(n.ast.value, ast.Name):
+                # the initial None is replaced on every path through the true edge of `if not <name>` before the return
+                R_ = n.ast.value.id
+                tests = [b for b in fcfg.live_nodes() if b.kind == "branch" and src(b.ast).replace(" ", "") in ("not" + R_, R_ + "isNone")]
+                sets = [m for m in fcfg.live_nodes() if m.kind == "stmt" and isinstance(m.ast, ast.Assign) and any(src(t) == R_ for t in m.ast.targets)
+                        and not (isinstance(m.ast.value, ast.Constant) and m.ast.value.value is None)]
+                if tests and all(fcfg.path_avoiding(b, [n], avoid_nodes=sets, avoid_edges=[(b, "false")], include_start=False) is None for b in tests) \
+                        and fcfg.dominates(tests, n):
+                    bad.remove("None")
+            ctx.ob("C17.PICK", fc, "the component returned for a wall time is one of the zone's components (an element of self._comps or a cached one)", not bad,
+                   construct="_find_comp: %s" % stmt_text(n)[:60], detail="" if not bad else "can also be: %s" % ", ".join(bad[:4]),
+                   analysis="reaching definitions (value set of the returned expression)")
+    ctx.floor("C17.PICK", n_ret, 3, "returns of _find_comp")
     fcd = prog.method(vtz.qualname, "_find_compdt", "C17.PICK")
     body = src(fcd.node)
     ctx.ob("C17.PICK", fcd, "the onset is rrule.before(dt, inc=True): an onset exactly at the wall time counts", "comp.rrule.before(dt, inc=True)" in body, construct="comp.rrule.before(dt, inc=True)")
